@@ -109,6 +109,14 @@ var (
 	ErrMPPTotalAmountMismatch = errors.New("mp payment total amount " +
 		"mismatch")
 
+	// ErrAMPSetIDMismatch is returned if we try to register an AMP shard
+	// whose set ID differs from the one of the shards in flight.
+	ErrAMPSetIDMismatch = errors.New("amp set id mismatch")
+
+	// ErrMixedAMPAndNonAMPShards is returned if we try to register a shard
+	// without AMP record while AMP shards are in flight, or vice versa.
+	ErrMixedAMPAndNonAMPShards = errors.New("mixed AMP and non-AMP shards")
+
 	// ErrPaymentPendingSettled is returned when we try to add a new
 	// attempt to a payment that has at least one of its HTLCs settled.
 	ErrPaymentPendingSettled = errors.New("payment has settled htlcs")
